@@ -147,4 +147,490 @@ example : IsHexEncoding [0x34, 0x61, 0x20, 0x36, 0x42, 0x0A, 0x37, 0x3E, 0x6A] [
         (.cons (h := 7) (l := 0) (by decide) (by decide) (by decide) .nil)))⟩
 example : hexDecode [0x34, 0x61, 0x20, 0x36, 0x42, 0x0A, 0x37, 0x3E, 0x6A] = .ok [0x4A, 0x6B, 0x70] := by decide
 
+
+
+/-! ### FlateDecode glue over an arbitrary streaming decoder -/
+
+/-- `Yields D s p`: pulling from state `s` produces non-empty chunks — in whatever sizes the
+    decoder likes — whose concatenation is `p`, and then reports end of stream. -/
+inductive Yields {σ : Type} (D : StreamDec σ) : σ → Bytes → Prop
+  | done {s s' : σ} : D.read s = .ok ([], s') → Yields D s []
+  | chunk {s s' : σ} {c rest : Bytes} : D.read s = .ok (c, s') → c ≠ [] → Yields D s' rest → Yields D s (c ++ rest)
+
+/-- `Fails D s`: after any number of chunks the decoder reports an error (truncated or corrupt stream). -/
+inductive Fails {σ : Type} (D : StreamDec σ) : σ → Prop
+  | now {s : σ} {k : ErrK} : D.read s = .err k → Fails D s
+  | later {s s' : σ} {c : Bytes} : D.read s = .ok (c, s') → c ≠ [] → Fails D s' → Fails D s
+
+theorem readToEnd_complete {σ : Type} (D : StreamDec σ) {s : σ} {p : Bytes} (h : Yields D s p) :
+    ∀ acc, readToEnd D s acc = .ok (acc ++ p) := by
+  induction h with
+  | done hr =>
+    intro acc
+    rw [readToEnd]
+    split
+    · rename_i c s'' heq
+      rw [hr] at heq
+      cases heq
+      simp
+    · rename_i heq; rw [hr] at heq; cases heq
+    · rename_i heq; rw [hr] at heq; cases heq
+  | chunk hr hc _ ih =>
+    intro acc
+    rw [readToEnd]
+    split
+    · rename_i c s'' heq
+      rw [hr] at heq
+      cases heq
+      simp only [hc, dite_false]
+      rw [ih]
+      simp
+    · rename_i heq; rw [hr] at heq; cases heq
+    · rename_i heq; rw [hr] at heq; cases heq
+
+theorem readToEnd_fails {σ : Type} (D : StreamDec σ) {s : σ} (h : Fails D s) :
+    ∀ acc, ∃ k, readToEnd D s acc = .err k := by
+  induction h with
+  | now hr =>
+    intro acc
+    rw [readToEnd]
+    split
+    · rename_i heq; rw [hr] at heq; cases heq
+    · rename_i k' heq; exact ⟨k', rfl⟩
+    · rename_i heq; rw [hr] at heq; cases heq
+  | later hr hc _ ih =>
+    intro acc
+    rw [readToEnd]
+    split
+    · rename_i c s'' heq
+      rw [hr] at heq
+      cases heq
+      simp only [hc, dite_false]
+      exact ih _
+    · rename_i heq; rw [hr] at heq; cases heq
+    · rename_i heq; rw [hr] at heq; cases heq
+
+/-- **flate_glue_complete.**  For *every* streaming decoder that delivers the payload — however it
+    chunks its reads — the repaired FlateDecode glue returns exactly the payload (predictor 1).
+    (The pre-repair glue falsifies this: `flate_old_glue_truncates`.) -/
+theorem flate_glue_complete {σ : Type} (ext : Ext) (D : StreamDec σ) (o : Option Dict) (s : σ) (p : Bytes)
+    (hpred : predictorOf o = 1) (h : Yields D s p) : flateGlue ext D o s = .ok p := by
+  unfold flateGlue
+  rw [readToEnd_complete D h []]
+  simp [hpred]
+
+/-- … and if the decoder fails at any point, no partial output is reported as success. -/
+theorem flate_glue_rejects {σ : Type} (ext : Ext) (D : StreamDec σ) (o : Option Dict) (s : σ)
+    (h : Fails D s) : ∃ k, flateGlue ext D o s = .err k := by
+  obtain ⟨k, hk⟩ := readToEnd_fails D h []
+  exact ⟨k, by unfold flateGlue; rw [hk]⟩
+
+/-- the zlib instance, for every chunk size -/
+theorem zlibDec_yields (chunk : Nat) : ∀ (n : Nat) (d : Bytes), d.length ≤ n → Yields (zlibDec chunk) ⟨d, false⟩ d := by
+  intro n
+  induction n with
+  | zero =>
+    intro d hd
+    have : d = [] := List.eq_nil_of_length_eq_zero (by omega)
+    subst this
+    exact .done (s' := ⟨[], false⟩) (by simp [zlibDec])
+  | succ n ih =>
+    intro d hd
+    cases d with
+    | nil => exact .done (s' := ⟨[], false⟩) (by simp [zlibDec])
+    | cons x t =>
+      have hy := ih ((x :: t).drop (chunk + 1)) (by simp only [List.drop_succ_cons, List.length_drop]; simp only [List.length_cons] at hd; omega)
+      have := Yields.chunk (D := zlibDec chunk) (s := ⟨x :: t, false⟩) (s' := ⟨(x :: t).drop (chunk + 1), false⟩)
+        (c := (x :: t).take (chunk + 1)) (rest := (x :: t).drop (chunk + 1)) (by simp [zlibDec]) (by simp) hy
+      rwa [List.take_append_drop] at this
+
+theorem zlibDec_fails (chunk : Nat) : Fails (zlibDec chunk) ⟨[], true⟩ :=
+  .now (k := .transform) (by simp [zlibDec])
+
+/-- FlateDecode returns what the zlib decoder decodes, or an error -/
+theorem flateDecode_ok (ext : Ext) (o : Option Dict) (input payload : Bytes) (hpred : predictorOf o = 1)
+    (h : Inflate.inflate input = .ok payload) : flateDecode ext o input = .ok payload := by
+  unfold flateDecode zlibInit
+  rw [h]
+  exact flate_glue_complete ext _ o _ payload hpred (zlibDec_yields _ _ _ (Nat.le_refl _))
+
+theorem flateDecode_err (ext : Ext) (o : Option Dict) (input : Bytes) (k : ErrK)
+    (h : Inflate.inflate input = .err k) : ∃ k', flateDecode ext o input = .err k' := by
+  unfold flateDecode zlibInit
+  rw [h]
+  exact flate_glue_rejects ext _ o _ (zlibDec_fails _)
+
+-- non-vacuity: a decoder that hands out a 5-byte payload in chunks of 2
+example : Yields (zlibDec 1) ⟨[1, 2, 3, 4, 5], false⟩ [1, 2, 3, 4, 5] := zlibDec_yields 1 5 _ (by decide)
+
+/-- **flate_old_glue_truncates** (witness of defects 6/7): the pre-repair glue — one write, then a
+    `finish` that does not fail — returns a strict prefix for a perfectly correct decoder. -/
+theorem flate_old_glue_truncates :
+    ∃ (D : StreamDec ZState) (s : ZState) (p : Bytes), Yields D s p ∧ flateOldGlue D s = .ok [1, 2] ∧ p = [1, 2, 3, 4, 5] :=
+  ⟨zlibDec 1, ⟨[1, 2, 3, 4, 5], false⟩, [1, 2, 3, 4, 5], zlibDec_yields 1 5 _ (by decide), by decide, rfl⟩
+
+/-! ### dictionary pruning and /Filter x /DecodeParms -/
+
+/-- **dict_pruned.**  The decoded stream's dictionary answers every key like the original one,
+    except that `/Filter` and `/DecodeParms` are gone; order and multiplicity are untouched. -/
+theorem lookup_filter (f : Bytes → Bool) (d : Dict) (k : Bytes) :
+    lookup k (d.filter fun kv => f kv.1) = if f k then lookup k d else none := by
+  induction d with
+  | nil => simp [lookup]
+  | cons kv t ih =>
+    obtain ⟨k', v⟩ := kv
+    by_cases hf : f k' = true
+    · rw [List.filter_cons_of_pos (by simpa using hf)]
+      by_cases hk : k' = k
+      · subst hk; simp [lookup, hf]
+      · simp only [lookup, hk, if_false, ih]
+    · rw [List.filter_cons_of_neg (by simpa using hf)]
+      by_cases hk : k' = k
+      · subst hk; simp [lookup, hf, ih]
+      · simp only [lookup, hk, if_false, ih]
+
+theorem dict_pruned (d : Dict) (k : Bytes) :
+    lookup k (prune d) = if k = kFilter ∨ k = kDecodeParms then none else lookup k d := by
+  unfold prune
+  rw [lookup_filter (fun k => !(k = kFilter || k = kDecodeParms)) d k]
+  by_cases h1 : k = kFilter <;> by_cases h2 : k = kDecodeParms <;> simp [h1, h2]
+
+theorem prune_sublist (d : Dict) : (prune d).Sublist d := List.filter_sublist
+
+example : prune [(kDecodeParms, .null), (kFilter, .name nHex), ([76], .int 5)] = [([76], .int 5)] := by rfl
+
+
+
+/-! ### /Filter x /DecodeParms -/
+
+def allNames : List Obj → Option (List Bytes)
+  | [] => some []
+  | .name n :: t => (allNames t).map (n :: ·)
+  | _ :: _ => none
+
+/-- a parameter entry: `null` or a dictionary -/
+def parmOf : Obj → Option (Option Dict)
+  | .null => some none
+  | .dict d => some (some d)
+  | _ => none
+
+def allParms : List Obj → Option (List (Option Dict))
+  | [] => some []
+  | o :: t => match parmOf o, allParms t with
+    | some p, some ps => some (p :: ps)
+    | _, _ => none
+
+theorem namesOnly_ok (fa : List Obj) (ns : List Bytes) (h : allNames fa = some ns) :
+    ∀ acc, namesOnly fa acc = .ok (acc ++ ns.map fun n => ⟨n, none⟩) := by
+  induction fa generalizing ns with
+  | nil => intro acc; cases h; simp [namesOnly]
+  | cons o t ih =>
+    intro acc
+    cases o with
+    | name n =>
+      simp only [allNames, Option.map_eq_some_iff] at h
+      obtain ⟨ns', h', rfl⟩ := h
+      simp [namesOnly, ih ns' h']
+    | _ => simp [allNames] at h
+
+theorem namesOnly_err (fa : List Obj) (h : allNames fa = none) : ∀ acc, namesOnly fa acc = .err .guard := by
+  induction fa with
+  | nil => cases h
+  | cons o t ih =>
+    intro acc
+    cases o with
+    | name n =>
+      simp only [allNames, Option.map_eq_none_iff] at h
+      simp [namesOnly, ih h]
+    | _ => simp [namesOnly]
+
+theorem zipFilters_ok (fa da : List Obj) (ns : List Bytes) (ps : List (Option Dict))
+    (hn : allNames fa = some ns) (hp : allParms da = some ps) (hl : fa.length = da.length) :
+    ∀ acc, zipFilters fa da acc = .ok (acc ++ (ns.zip ps).map fun np => ⟨np.1, np.2⟩) := by
+  induction fa generalizing da ns ps with
+  | nil =>
+    intro acc
+    cases hn
+    cases da with
+    | nil => simp [zipFilters]
+    | cons _ _ => simp at hl
+  | cons f t ih =>
+    intro acc
+    cases da with
+    | nil => simp at hl
+    | cons p u =>
+      cases f with
+      | name n =>
+        simp only [allNames, Option.map_eq_some_iff] at hn
+        obtain ⟨ns', hn', rfl⟩ := hn
+        simp only [allParms] at hp
+        cases hpo : parmOf p with
+        | none => simp [hpo] at hp
+        | some pp =>
+          cases hpt : allParms u with
+          | none => simp [hpo, hpt] at hp
+          | some ps' =>
+            simp only [hpo, hpt, Option.some.injEq] at hp
+            subst hp
+            have hl' : t.length = u.length := by simpa using hl
+            cases p with
+            | null => simp only [parmOf, Option.some.injEq] at hpo; subst hpo; simp [zipFilters, ih u ns' ps' hn' hpt hl']
+            | dict dd => simp only [parmOf, Option.some.injEq] at hpo; subst hpo; simp [zipFilters, ih u ns' ps' hn' hpt hl']
+            | _ => simp [parmOf] at hpo
+      | _ => simp [allNames] at hn
+
+/-- **filters_shape.**  The decision table of `StreamT::filters`, by what the dictionary holds under
+    `/Filter` and `/DecodeParms`:
+    1. no `/Filter` name or array → no filters;
+    2. a name, parameters absent or not a dictionary/array → that filter, no parameters;
+    3. a name and a dictionary → that filter with these parameters;
+    4. a name and an *array* of parameters → error;
+    5. an array of names, no parameter array → those filters, in order, no parameters;
+    6. an array of names with a parallel array of null/dictionary entries → paired up in order;
+    7. arrays of different lengths → error;   8. a non-name in the filter array (no parameter array) → error. -/
+theorem filters_shape (d : Dict) :
+    (getNameObj d kFilter = none → getArray d kFilter = none → filters d = .ok []) ∧
+    (∀ n, getNameObj d kFilter = some n → getDict d kDecodeParms = none → getArray d kDecodeParms = none →
+        filters d = .ok [⟨n, none⟩]) ∧
+    (∀ n p, getNameObj d kFilter = some n → getDict d kDecodeParms = some p → filters d = .ok [⟨n, some p⟩]) ∧
+    (∀ n a, getNameObj d kFilter = some n → getArray d kDecodeParms = some a → filters d = .err .guard) ∧
+    (∀ fa ns, getArray d kFilter = some fa → allNames fa = some ns → getArray d kDecodeParms = none →
+        filters d = .ok (ns.map fun n => ⟨n, none⟩)) ∧
+    (∀ fa da ns ps, getArray d kFilter = some fa → getArray d kDecodeParms = some da →
+        allNames fa = some ns → allParms da = some ps → fa.length = da.length →
+        filters d = .ok ((ns.zip ps).map fun np => ⟨np.1, np.2⟩)) ∧
+    (∀ fa da, getArray d kFilter = some fa → getArray d kDecodeParms = some da → fa.length ≠ da.length →
+        filters d = .err .guard) ∧
+    (∀ fa, getArray d kFilter = some fa → allNames fa = none → getArray d kDecodeParms = none →
+        filters d = .err .guard) := by
+  have arr_not_name : ∀ fa, getArray d kFilter = some fa → getNameObj d kFilter = none := by
+    intro fa h
+    unfold getArray at h; unfold getNameObj
+    split at h <;> simp_all
+  have arr_not_dict : ∀ a, getArray d kDecodeParms = some a → getDict d kDecodeParms = none := by
+    intro a h
+    unfold getArray at h; unfold getDict
+    split at h <;> simp_all
+  refine ⟨?_, ?_, ?_, ?_, ?_, ?_, ?_, ?_⟩
+  · intro h1 h2; simp [filters, h1, h2]
+  · intro n h1 h2 h3; simp [filters, h1, h2, h3]
+  · intro n p h1 h2; simp [filters, h1, h2]
+  · intro n a h1 h2; simp [filters, h1, arr_not_dict a h2, h2]
+  · intro fa ns h1 h2 h3
+    simp [filters, arr_not_name fa h1, h1, h3, namesOnly_ok fa ns h2]
+  · intro fa da ns ps h1 h2 h3 h4 h5
+    simp [filters, arr_not_name fa h1, h1, h2, h5, zipFilters_ok fa da ns ps h3 h4 h5]
+  · intro fa da h1 h2 h3
+    have : ¬ da.length = fa.length := fun h => h3 h.symm
+    simp [filters, arr_not_name fa h1, h1, h2, this]
+  · intro fa h1 h2 h3
+    simp [filters, arr_not_name fa h1, h1, h3, namesOnly_err fa h2]
+
+-- non-vacuity of clause 6: /Filter [/ASCII85Decode /FlateDecode] /DecodeParms [null <<>>]
+example : filters [(kDecodeParms, .arr [.null, .dict []]), (kFilter, .arr [.name nA85, .name nFlate])]
+    = .ok [⟨nA85, none⟩, ⟨nFlate, some []⟩] := by rfl
+
+/-! ### filter chains and decode_stream -/
+
+/-- `LayerEnc f x e`: `e` is a conformant encoding of `x` for the filter named `f` -/
+inductive LayerEnc : Bytes → Bytes → Bytes → Prop
+  | hex {x e : Bytes} : IsHexEncoding e x → LayerEnc nHex x e
+  | a85 {x e : Bytes} : IsA85Encoding e x → LayerEnc nA85 x e
+  /-- a zlib stream of stored blocks (any partition), followed by anything -/
+  | flateStored {parts : List Bytes} {trailing : Bytes} :
+      (∀ p ∈ parts, p.length ≤ 65535) → LayerEnc nFlate parts.flatten (zlibStored parts ++ trailing)
+  /-- any other zlib stream, *as far as the modelled inflate decodes it to `x`* (Huffman-coded
+      streams: tied to the real zlib by the correspondence run, not by a theorem) -/
+  | flateAny {x e : Bytes} : Inflate.inflate e = .ok x → LayerEnc nFlate x e
+
+/-- `ChainEnc fs payload content`: `content` is `payload` encoded for the filter list `fs`
+    (first filter = outermost encoding), every Flate layer without predictor -/
+inductive ChainEnc : List Filter → Bytes → Bytes → Prop
+  | nil {p : Bytes} : ChainEnc [] p p
+  | cons {f : Filter} {fs : List Filter} {p mid c : Bytes} :
+      LayerEnc f.name mid c → predictorOf f.options = 1 → ChainEnc fs p mid → ChainEnc (f :: fs) p c
+
+theorem layer_roundtrip (ext : Ext) (f : Filter) (x e : Bytes) (h : LayerEnc f.name x e)
+    (hp : predictorOf f.options = 1) : applyFilter ext f e = .ok x := by
+  unfold applyFilter
+  generalize hn : f.name = n at h
+  cases h with
+  | hex h =>
+    have h1 : ¬ nHex = nFlate := by decide
+    have h2 : ¬ nHex = nA85 := by decide
+    simp only [h1, h2, if_false, if_true]; exact hex_roundtrip _ _ h
+  | a85 h =>
+    have h1 : ¬ nA85 = nFlate := by decide
+    simp only [h1, if_false, if_true]; exact a85_roundtrip _ _ h
+  | flateStored h =>
+    simp only [if_true]
+    exact flateDecode_ok ext _ _ _ hp (inflate_stored_roundtrip _ _ h)
+  | flateAny h =>
+    simp only [if_true]
+    exact flateDecode_ok ext _ _ _ hp h
+
+/-- **chain_roundtrip.**  Applying the filters in order to a chain encoding returns the payload,
+    for chains of any length. -/
+theorem chain_roundtrip (ext : Ext) (fs : List Filter) (payload content : Bytes)
+    (h : ChainEnc fs payload content) : runChain ext fs content = .ok payload := by
+  induction h with
+  | nil => rfl
+  | cons hl hp _ ih => simp only [runChain, layer_roundtrip ext _ _ _ hl hp, ih]
+
+/-- **decode_stream_roundtrip.**  `decode_stream` on a stream whose dictionary announces the filter
+    list `fs` (in any of the accepted `/Filter`-`/DecodeParms` shapes, see `filters_shape`) and whose
+    data is a chain encoding of `payload` returns exactly `payload` and the pruned dictionary. -/
+theorem decode_stream_roundtrip (ext : Ext) (d : Dict) (fs : List Filter) (payload content : Bytes)
+    (hf : filters d = .ok fs) (h : ChainEnc fs payload content) :
+    decodeStream ext d content = .ok (payload, prune d) := by
+  simp only [decodeStream, hf, chain_roundtrip ext fs payload content h]
+
+/-- a failing stage fails the whole decode: no partial result -/
+theorem chain_error_propagates (ext : Ext) (pre : List Filter) (f : Filter) (post : List Filter)
+    (payload mid content : Bytes) (k : ErrK)
+    (h : ChainEnc pre mid content) (hf : applyFilter ext f mid = .err k) :
+    runChain ext (pre ++ f :: post) content = .err k := by
+  induction h with
+  | nil => simp [runChain, hf]
+  | cons hl hp _ ih => simp only [List.cons_append, runChain, layer_roundtrip ext _ _ _ hl hp, ih hf]
+
+-- non-vacuity: <</Filter [/ASCIIHexDecode /FlateDecode]>> over hex(zlibStored [[7,8]])
+example : ChainEnc [⟨nHex, none⟩, ⟨nFlate, some []⟩] [7, 8]
+    (encodeHex (fun _ => true) false (zlibStored [[7, 8]] ++ [])) :=
+  .cons (mid := zlibStored [[7, 8]] ++ [])
+    (.hex ⟨encodeHexDigits (fun _ => true) 0 (zlibStored [[7, 8]] ++ []), [], by decide, by decide,
+      .inl (by rw [show strip (encodeHexDigits (fun _ => true) 0 (zlibStored [[7, 8]] ++ []))
+                     = encodeHexDigits (fun _ => true) 0 (zlibStored [[7, 8]] ++ []) from by decide]
+               exact encodeHexDigits_pairs _ _ 0)⟩)
+    rfl
+    (.cons (mid := [[7, 8]].flatten) (.flateStored (by decide)) rfl .nil)
+
+
+/-! ### corrupt encodings are errors -/
+
+theorem hexStage_skip (pre tail : Bytes)
+    (hpre : ∀ b ∈ pre, FiltersSpec.isWs b = true ∨ (hexVal b).isSome = true) :
+    ∀ st, hexStage (pre ++ tail) st = hexStage tail ((strip pre).reverse ++ st) := by
+  induction pre with
+  | nil => intro st; simp [strip]
+  | cons b t ih =>
+    intro st
+    have ht : ∀ b ∈ t, FiltersSpec.isWs b = true ∨ (hexVal b).isSome = true :=
+      fun x hx => hpre x (List.mem_cons_of_mem _ hx)
+    rcases hpre b (List.mem_cons_self) with hw | hd
+    · have hw' : Filters.isWs b = true := hw
+      simp only [List.cons_append, hexStage, hw', if_true]
+      rw [ih ht]; simp [strip, hw]
+    · obtain ⟨h1, h2, h3⟩ := hexdigit_facts b hd
+      have hw : FiltersSpec.isWs b = false := h1
+      simp only [List.cons_append, hexStage, h1, h2, h3, Bool.false_eq_true, if_false, if_true]
+      rw [ih ht]; simp [strip, hw]
+
+/-- an illegal character before the EOD marker is an error -/
+theorem hex_illegal_char (pre rest : Bytes) (c : UInt8)
+    (hpre : ∀ b ∈ pre, FiltersSpec.isWs b = true ∨ (hexVal b).isSome = true)
+    (h1 : FiltersSpec.isWs c = false) (h2 : c ≠ 0x3E) (h3 : (hexVal c).isSome = false) :
+    hexDecode (pre ++ c :: rest) = .err .transform := by
+  have hd : isHexDigit c = false := by
+    revert h3; revert c; apply forall_u8; decide +kernel
+  have h1' : Filters.isWs c = false := h1
+  have h2' : (c == 0x3E) = false := by simpa using h2
+  unfold hexDecode
+  rw [hexStage_skip pre _ hpre]
+  simp [hexStage, h1', h2', hd]
+
+/-- a missing EOD marker is an error, whatever else the data holds -/
+theorem hex_missing_eod (content : Bytes) (h : ∀ b ∈ content, b ≠ 0x3E) :
+    hexDecode content = .err .transform := by
+  have : ∀ st, hexStage content st = .err .transform := by
+    induction content with
+    | nil => intro st; rfl
+    | cons b t ih =>
+      intro st
+      have hb : (b == 0x3E) = false := by simpa using h b (List.mem_cons_self)
+      have iht := ih (fun x hx => h x (List.mem_cons_of_mem _ hx))
+      simp only [hexStage, hb, Bool.false_eq_true, if_false]
+      split
+      · exact iht _
+      · split
+        · exact iht _
+        · rfl
+  unfold hexDecode; rw [this]
+
+theorem a85Stage_misaligned (pre rest : Bytes)
+    (hpre : ∀ b ∈ pre, Filters.isWs b = false ∧ b ≠ 0x7A ∧ b ≠ 0x7E) :
+    ∀ st g, g < 5 → (g + pre.length) % 5 ≠ 0 → a85Stage (pre ++ 0x7A :: rest) st g = .err .transform := by
+  induction pre with
+  | nil =>
+    intro st g hg hne
+    have hw : Filters.isWs 0x7A = false := by decide
+    have : (g != 0) = true := by simp at hne ⊢; omega
+    simp [a85Stage, hw, this]
+  | cons b t ih =>
+    intro st g hg hne
+    obtain ⟨h1, h2, h3⟩ := hpre b (List.mem_cons_self)
+    have h2' : (b == 0x7A) = false := by simpa using h2
+    have h3' : (b == 0x7E) = false := by simpa using h3
+    simp only [List.cons_append, a85Stage, h1, h2', h3', Bool.false_eq_true, if_false]
+    apply ih (fun x hx => hpre x (List.mem_cons_of_mem _ hx))
+    · omega
+    · simp only [List.length_cons] at hne; omega
+
+/-- a `z` inside a group (after 1-4 digits of it) is an error -/
+theorem a85_misaligned_z (pre rest : Bytes)
+    (hpre : ∀ b ∈ pre, Filters.isWs b = false ∧ b ≠ 0x7A ∧ b ≠ 0x7E) (hlen : pre.length % 5 ≠ 0) :
+    a85Decode (pre ++ 0x7A :: rest) = .err .transform := by
+  unfold a85Decode
+  rw [a85Stage_misaligned pre rest hpre [] 0 (by omega) (by omega)]
+
+/-- **corrupt_is_error.**  The unambiguous corruptions are rejected and nothing partial is returned:
+    an illegal ASCIIHex character, a missing ASCIIHex EOD, a misaligned ASCII85 `z`, and any zlib
+    stream the decoder rejects — at whatever point of the stream, after however many chunks of
+    output — (truncated, failed checksum, …), also when it sits behind correctly encoded outer layers. -/
+theorem corrupt_is_error :
+    (∀ (pre rest : Bytes) (c : UInt8),
+        (∀ b ∈ pre, FiltersSpec.isWs b = true ∨ (hexVal b).isSome = true) →
+        FiltersSpec.isWs c = false → c ≠ 0x3E → (hexVal c).isSome = false →
+        hexDecode (pre ++ c :: rest) = .err .transform) ∧
+    (∀ content : Bytes, (∀ b ∈ content, b ≠ 0x3E) → hexDecode content = .err .transform) ∧
+    (∀ pre rest : Bytes, (∀ b ∈ pre, Filters.isWs b = false ∧ b ≠ 0x7A ∧ b ≠ 0x7E) → pre.length % 5 ≠ 0 →
+        a85Decode (pre ++ 0x7A :: rest) = .err .transform) ∧
+    (∀ {σ : Type} (ext : Ext) (D : StreamDec σ) (o : Option Dict) (s : σ), Fails D s →
+        ∃ k, flateGlue ext D o s = .err k) ∧
+    (∀ (ext : Ext) (o : Option Dict) (input : Bytes) (k : ErrK), Inflate.inflate input = .err k →
+        ∃ k', flateDecode ext o input = .err k') ∧
+    (∀ (ext : Ext) (pre : List Filter) (f : Filter) (post : List Filter) (payload mid content : Bytes) (k : ErrK),
+        ChainEnc pre mid content → applyFilter ext f mid = .err k →
+        runChain ext (pre ++ f :: post) content = .err k) :=
+  ⟨hex_illegal_char, hex_missing_eod, a85_misaligned_z, flate_glue_rejects, flateDecode_err,
+   fun ext pre f post payload mid content k => chain_error_propagates ext pre f post payload mid content k⟩
+
+-- executed instances (tests, not proofs): `uuuuu~>` and `s8W-"~>` (group ≥ 2^32, caught overflow panic),
+-- `{` in ASCII85, a zlib stream cut short, a flipped Adler-32 byte
+example : a85Decode [0x75, 0x75, 0x75, 0x75, 0x75, 0x7E, 0x3E] = .err .transform := by decide
+example : a85Decode [0x73, 0x38, 0x57, 0x2D, 0x22, 0x7E, 0x3E] = .err .transform := by decide
+example : a85Decode [0x73, 0x38, 0x57, 0x2D, 0x21, 0x7E, 0x3E] = .ok [0xFF, 0xFF, 0xFF, 0xFF] := by decide
+example : a85Decode [0x38, 0x7B, 0x7E, 0x3E] = .err .transform := by decide
+
+/-! ### witnesses of the repaired defects (pre-repair glue) -/
+
+/-- defect 8: `48656C6C6F>` was rejected (zero-length output slice); the repaired glue decodes it -/
+theorem hex_old_witness :
+    hexDecodeOld [0x34, 0x38, 0x36, 0x35, 0x36, 0x43, 0x36, 0x43, 0x36, 0x46, 0x3E] = .err .transform ∧
+    hexDecode [0x34, 0x38, 0x36, 0x35, 0x36, 0x43, 0x36, 0x43, 0x36, 0x46, 0x3E] = .ok [0x48, 0x65, 0x6C, 0x6C, 0x6F] := by
+  decide
+
+/-- defect 9: the padding test used the raw index: in `4 >` the EOD sits at index 2, no `0` was
+    appended and the odd stage was rejected; in ` 40>` (index 3) a `0` *was* appended to an even stage -/
+theorem hex_old_parity_witness :
+    hexStageOld [0x34, 0x20, 0x3E] 0 [] = .ok [0x34] ∧ hexStage [0x34, 0x20, 0x3E] [] = .ok [0x34, 0x30] ∧
+    hexStageOld [0x20, 0x34, 0x30, 0x3E] 0 [] = .ok [0x34, 0x30, 0x30] ∧ hexStage [0x20, 0x34, 0x30, 0x3E] [] = .ok [0x34, 0x30] := by
+  decide
+
+/-- defect 10: `z87cUR~>` was rejected (the crate errors on every `z`); the repaired glue expands it -/
+theorem a85_old_witness :
+    a85DecodeOld [0x7A, 0x38, 0x37, 0x63, 0x55, 0x52, 0x7E, 0x3E] = .err .transform ∧
+    a85Decode [0x7A, 0x38, 0x37, 0x63, 0x55, 0x52, 0x7E, 0x3E] = .ok [0, 0, 0, 0, 0x48, 0x65, 0x6C, 0x6C] := by
+  decide
+
 end Parsley.C06
